@@ -482,6 +482,10 @@ func init() {
 		r.Segs = segs
 		return r
 	})
+	reg("bytes.Compare", "-1/0/1 by lexicographic byte order", func(x *Exec, st *State, ci *callInfo, a []Val) Val {
+		p, q := tt(a[0]), tt(a[1])
+		return Ite(app(SBool, "str.<", p, q), IntLit(-1), Ite(Eq(p, q), IntLit(0), IntLit(1)))
+	})
 	reg("bytes.Equal", "byte-wise equality", func(x *Exec, st *State, ci *callInfo, a []Val) Val { return Eq(tt(a[0]), tt(a[1])) })
 	reg("bytes.HasPrefix", "prefix test", func(x *Exec, st *State, ci *callInfo, a []Val) Val { return app(SBool, "str.prefixof", tt(a[1]), tt(a[0])) })
 	reg("bytes.TrimPrefix", "s without the prefix if present", func(x *Exec, st *State, ci *callInfo, a []Val) Val {
